@@ -1,3 +1,4 @@
+#![allow(unexpected_cfgs)]
 extern crate clap;
 use clap::{App, Arg};
 use std::{cmp::max, time::Instant};
@@ -10,6 +11,8 @@ mod search;
 mod time_control;
 mod uci;
 mod utils;
+#[cfg(walleye_verif)]
+mod verif;
 mod zobrist;
 
 /*
